@@ -26,6 +26,11 @@ pub enum POp {
     Stall { to_master: bool, ms: u64 },
     /// the next write in this direction is held up by `ms` (on top of the latency)
     HoldNext { to_master: bool, ms: u64 },
+    /// the connection is cut right after the n-th write from now in this direction (what was written last is lost when `eof` is false)
+    CutAfterWrites { to_master: bool, nth: u32, eof: bool },
+    /// a database transaction made by another thread at the moment the outstation task reaches a lock / wait point
+    /// (site substring, occurrences to skip)
+    UpdateAtLock { site: String, skip: u32, ops: Vec<UpdateOp> },
     /// what the outstation application reports as its processing delay
     ProcessingDelay(u16),
     /// the outstation application's NEED_TIME indication
@@ -54,8 +59,8 @@ pub struct PairRun {
     pub master_log: Vec<(u64, u64, MEv)>,
     /// outstation application callbacks: (virtual ms, order, callback)
     pub out_log: Vec<(u64, u64, Cb)>,
-    /// database transactions applied: (virtual ms, order, update, result as text)
-    pub updates: Vec<(u64, u64, UpdateOp, String)>,
+    /// database transactions applied: (virtual ms, order, update, result)
+    pub updates: Vec<(u64, u64, UpdateOp, crate::outstation::database::UpdateInfo)>,
     pub op_marks: Vec<(usize, u64, u64)>,
     pub user_kinds: Vec<(u64, u16, UserKind)>,
     pub net_attempts: Vec<(u64, ConnectPlan)>,
@@ -96,7 +101,51 @@ pub async fn drive(sim: &Sim, case: &PairCase) -> PairRun {
     let mut polls: Vec<crate::master::PollHandle> = Vec::new();
     let mut op_marks = Vec::new();
     let mut user_kinds = Vec::new();
-    let mut updates = Vec::new();
+    let updates: Arc<Mutex<Vec<(u64, u64, UpdateOp, crate::outstation::database::UpdateInfo)>>> = Arc::new(Mutex::new(Vec::new()));
+    // transactions waiting for the outstation task to reach a lock point: (site, occurrences to skip, updates)
+    let lockq: Arc<Mutex<Vec<(String, u32, Vec<UpdateOp>)>>> = Arc::new(Mutex::new(Vec::new()));
+    {
+        let lockq = lockq.clone();
+        let updates = updates.clone();
+        let db = out.handle.get_database_handle();
+        sim.set_lock_hook(Box::new(move |site| {
+            if site == "transaction" {
+                return;
+            }
+            let mut q = lockq.lock().unwrap();
+            let mut i = 0;
+            while i < q.len() {
+                if site.contains(q[i].0.as_str()) {
+                    if q[i].1 == 0 {
+                        let (_, _, ops) = q.remove(i);
+                        let core = kernel::current();
+                        let t = core.as_ref().map(|c| c.now_ms()).unwrap_or(0);
+                        let mut results = Vec::new();
+                        db.transaction(|d| {
+                            for u in &ops {
+                                results.push(u.apply(d));
+                            }
+                        });
+                        if let Some(core) = &core {
+                            core.count("fault.update_at_lock_point", 1);
+                            if core.log_enabled() {
+                                core.log(format!("  user transaction at lock point '{}': {} updates", site, ops.len()));
+                            }
+                        }
+                        let mut ups = updates.lock().unwrap();
+                        for (u, r) in ops.iter().zip(results.into_iter()) {
+                            let order = core.as_ref().map(|c| c.next_order()).unwrap_or(0);
+                            ups.push((t, order, u.clone(), r));
+                        }
+                        continue;
+                    } else {
+                        q[i].1 -= 1;
+                    }
+                }
+                i += 1;
+            }
+        }));
+    }
     let mut next_user_id = 0u64;
     sim.settle().await;
     for (i, op) in case.script.iter().enumerate() {
@@ -157,12 +206,13 @@ pub async fn drive(sim: &Sim, case: &PairCase) -> PairRun {
                 let mut results = Vec::new();
                 out.handle.transaction(|db| {
                     for u in ops {
-                        results.push(format!("{:?}", u.apply(db)));
+                        results.push(u.apply(db));
                     }
                 });
+                let mut ups = updates.lock().unwrap();
                 for (u, r) in ops.iter().zip(results.into_iter()) {
                     let order = sim.core().next_order();
-                    updates.push((t, order, u.clone(), r));
+                    ups.push((t, order, u.clone(), r));
                 }
             }
             POp::Cut { eof } => {
@@ -191,6 +241,16 @@ pub async fn drive(sim: &Sim, case: &PairCase) -> PairRun {
                     ch.lock().unwrap().hold_next_ms = *ms;
                     sim.count("fault.hold_next");
                 }
+            }
+            POp::CutAfterWrites { to_master, nth, eof } => {
+                let c = conn.lock().unwrap().clone();
+                if let Some((c2s, s2c)) = c {
+                    let ch = if *to_master { s2c } else { c2s };
+                    ch.lock().unwrap().cut_after_writes = Some(((*nth).max(1), if *eof { CloseKind::Eof } else { CloseKind::Reset }));
+                }
+            }
+            POp::UpdateAtLock { site, skip, ops } => {
+                lockq.lock().unwrap().push((site.clone(), *skip, ops.clone()));
             }
             POp::ProcessingDelay(ms) => {
                 out.rec.lock().unwrap().processing_delay_ms = *ms;
@@ -232,6 +292,7 @@ pub async fn drive(sim: &Sim, case: &PairCase) -> PairRun {
     let master_log = node.rec.lock().unwrap().log.clone();
     let n = *connections.lock().unwrap();
     let _ = kernel::current();
+    let updates = updates.lock().unwrap().clone();
     PairRun {
         master_log,
         out_log,
